@@ -47,6 +47,8 @@ inductive Sql where
   | and (a b : Sql)
   | ge (a b : Sql)
   | lt (a b : Sql)
+  | gt (a b : Sql)             -- not emitted by the current source; evaluated so that a changed comparison still yields a concrete failing input
+  | le (a b : Sql)
   | coalesce (a b : Sql)
   | substr3 (e p l : Sql)      -- ['SUBSTR', e, p, l]
   | substr2 (e p : Sql)        -- ['SUBSTR', e, p, None]
@@ -64,7 +66,7 @@ def tag : Sql → String
   | .value _ | .strLit _ | .null => "VALUE"
   | .col _ => "COLUMN" | .param _ => "PARAM" | .length _ => "LENGTH" | .add _ _ => "ADD" | .sub _ _ => "SUB"
   | .max2 _ _ => "MAX" | .ifte _ _ _ => "IF" | .case4 .. => "CASE" | .and _ _ => "AND" | .ge _ _ => "GE"
-  | .lt _ _ => "LT" | .coalesce _ _ => "COALESCE" | .substr3 _ _ _ => "SUBSTR" | .substr2 _ _ => "SUBSTR"
+  | .lt _ _ => "LT" | .gt _ _ => "GT" | .le _ _ => "LE" | .coalesce _ _ => "COALESCE" | .substr3 _ _ _ => "SUBSTR" | .substr2 _ _ => "SUBSTR"
   | .slice _ _ _ => "PY_STRING_SLICE"
 
 /-- the nested-list form Pony builds -/
@@ -84,6 +86,8 @@ def enc : Sql → PyVal
   | .and a b => .list [.str "AND", enc a, enc b]
   | .ge a b => .list [.str "GE", enc a, enc b]
   | .lt a b => .list [.str "LT", enc a, enc b]
+  | .gt a b => .list [.str "GT", enc a, enc b]
+  | .le a b => .list [.str "LE", enc a, enc b]
   | .coalesce a b => .list [.str "COALESCE", enc a, enc b]
   | .substr3 e p l => .list [.str "SUBSTR", enc e, enc p, enc l]
   | .substr2 e p => .list [.str "SUBSTR", enc e, enc p, .none]
@@ -110,6 +114,8 @@ def dec : PyVal → Option Sql
   | .list [.str "AND", a, b] => do some (.and (← dec a) (← dec b))
   | .list [.str "GE", a, b] => do some (.ge (← dec a) (← dec b))
   | .list [.str "LT", a, b] => do some (.lt (← dec a) (← dec b))
+  | .list [.str "GT", a, b] => do some (.gt (← dec a) (← dec b))
+  | .list [.str "LE", a, b] => do some (.le (← dec a) (← dec b))
   | .list [.str "COALESCE", a, b] => do some (.coalesce (← dec a) (← dec b))
   | .list [.str "SUBSTR", e, p, .none] => do some (.substr2 (← dec e) (← dec p))
   | .list [.str "SUBSTR", e, p, l] => do some (.substr3 (← dec e) (← dec p) (← dec l))
@@ -360,6 +366,14 @@ def eval (d : Dialect) (env : Env) : Sql → SM SVal
       let x ← eval d env a
       let y ← eval d env b
       cmpV (fun u v => decide (u < v)) x y
+  | .gt a b => do
+      let x ← eval d env a
+      let y ← eval d env b
+      cmpV (fun u v => decide (u > v)) x y
+  | .le a b => do
+      let x ← eval d env a
+      let y ← eval d env b
+      cmpV (fun u v => decide (u ≤ v)) x y
   | .coalesce a b => do
       let x ← eval d env a
       if x = .null then eval d env b else .ok x
